@@ -4,6 +4,7 @@ package stun_test
 
 import (
 	"bufio"
+	"bytes"
 	"encoding/json"
 	"math/rand"
 	"os"
@@ -36,6 +37,8 @@ func (tw *traceWriter) emit(v interface{}) {
 	if err != nil {
 		panic(err)
 	}
+	// Json.ndJsonDeserialize has no null: nil slices are written as empty arrays
+	b = bytes.ReplaceAll(b, []byte(":null"), []byte(":[]"))
 	tw.w.Write(b)
 	tw.w.WriteByte('\n')
 	tw.n++
